@@ -270,6 +270,12 @@ class Run:
             f.seek(min(offset, len(blobs[idx])))
             self.open_streams.append(f)
             return f, f
+        if kind == "linkpath":
+            # the path of a symbolic link to the file
+            link = paths[idx] + ".link"
+            if not os.path.lexists(link):
+                os.symlink(paths[idx], link)
+            return link, None
         if kind == "shortreads":
             # a buffered binary stream whose read(n) returns FEWER than n bytes although more will follow (legal for
             # io.BufferedIOBase implementations over interactive / network sources): only an EMPTY read means end of stream
